@@ -70,6 +70,13 @@ class TraceCall(Contract):
         # numeric order beyond ten entries)
         out.append(dict(label="pos=2;kw=0;returns=tuple12", n=2, m=0,
                         ret="tuple12"))
+        # a function that ignores some of its arguments (documented: unused
+        # parameters are allowed; they have no placeholder in the body)
+        for n, m in ((2, 0), (1, 1), (0, 2), (2, 1)):
+            for ret in ("array", "tuple", "dict"):
+                out.append(dict(
+                    label=f"pos={n};kw={m};returns={ret};ignores-first",
+                    n=n, m=m, ret=ret, ignores="first"))
         return out
 
     def canaries(self, tier):
@@ -93,6 +100,8 @@ class TraceCall(Contract):
             seen["pos"] = pls
             seen["kw"] = kpls
             allp = [*pls, *kpls.values()]
+            if inst.get("ignores") == "first":
+                allp = allp[1:]
             body = allp[0]
             for q in allp[1:]:
                 body = body + q
